@@ -221,9 +221,24 @@ def make_generated(rng, kind):
         L = SL * nseg
         w = W.gen_core(rng, n_chroms=1, n_samples=1, ploidy=ploidy, kinds=["snv"], length=L, n_variants=6 * nseg, het_rate=0.95, min_gap=30)
         segs = []
+        gap_block = rng.randrange(1, nseg - 1) if rng.random() < 0.6 else None
         for k in range(nseg):
-            segs.append((0, k * SL + 8, (k + 1) * SL - 8, rng.randrange(20, 161)))
+            depth = rng.randrange(20, 161)
+            if k == gap_block:
+                depth = rng.choice([6, 8, 12])  # the block the gapped reads jump over is thinly covered
+            segs.append((0, k * SL + 8, (k + 1) * SL - 8, depth))
         W.gen_library_segments(rng, w, "L0", segs, read_len=(160, 314))
+        # gapped alignments (one long deletion, as for spliced reads or reads across a structural variant) that span a whole
+        # block without covering any variant in it
+        if gap_block is not None:
+            extra = []
+            for j in range(rng.choice([30, 80, 150])):
+                k = gap_block - 1
+                a = rng.randrange(k * SL + 60, (k + 1) * SL - 40)
+                b = rng.randrange((k + 2) * SL + 40, (k + 3) * SL - 60)
+                extra.append({"name": "L0_gap_%d" % j, "sample": w["samples"][0], "chrom": 0, "start": a, "end": b, "hap": rng.randrange(ploidy),
+                              "mapq": 60, "flag": 0, "gaps": [[(k + 1) * SL - 12, (k + 2) * SL + 12]]})
+            w["libs"]["L0"]["reads"] += extra
         files = [{"kind": "ref", "name": "ref.fa"}, {"kind": "bam", "lib": "L0", "name": "reads.bam"}, {"kind": "vcf", "name": "in.vcf"}]
         base = {"world": W.clean_world(w), "files": files, "stdout": None, "expect_exit": 0}
         out.append(dict(base, name="gen-polyphase-deep", subcommand="polyphase",
